@@ -68,6 +68,10 @@ func addrSnapshot(s *core.StructSpec, rv reflect.Value, path string, sb *strings
 			fmt.Fprintf(sb, "%s:str@%p/%d\n", p, strData(str), len(str))
 		case core.KBinary:
 			fmt.Fprintf(sb, "%s:bin@%x/%d/%d\n", p, rv.Pointer(), rv.Len(), rv.Cap())
+			if rv.Kind() == reflect.Slice && rv.Cap() > rv.Len() {
+				bs := rv.Bytes()
+				fmt.Fprintf(sb, "%s:bin-spare:%x\n", p, bs[len(bs):cap(bs)])
+			}
 		case core.KList, core.KSet:
 			fmt.Fprintf(sb, "%s:slice@%x/%d/%d\n", p, rv.Pointer(), rv.Len(), rv.Cap())
 			for i := 0; i < rv.Len(); i++ {
@@ -123,6 +127,9 @@ func addrSnapshot(s *core.StructSpec, rv reflect.Value, path string, sb *strings
 	if h := b.HolderIndex(); h >= 0 {
 		hb := holderBytes(rv.Field(h))
 		fmt.Fprintf(sb, "%s._unknownFields@%p/%d/%d\n", path, sliceData(hb), len(hb), cap(hb))
+		if cap(hb) > len(hb) {
+			fmt.Fprintf(sb, "%s._unknownFields-spare:%x\n", path, hb[len(hb):cap(hb)])
+		}
 	}
 }
 
